@@ -20,7 +20,7 @@ def wl_bloom(ctx, rng, case):
     est, rate, m, k = gen.bloom_geometry(rng)
     if case.index % 60 == 11:
         from .. import refimpl as _r
-        est, rate = rng.choice([(20000, 0.01), (60000, 0.05), (9000, 1e-5)])  # several pages of bits
+        est, rate = rng.choice([(20000, 0.01), (60000, 0.05), (9000, 1e-5), (70000, 0.01), (300000, 0.01)])  # several pages of bits, up to 350 KiB
         m, k = _r.bloom_sizing_simple(est, rate)
         ctx.count("large_bloom_pairs")
     keys = gen.universe(rng, rng.randint(2, 20))
@@ -109,6 +109,58 @@ def wl_bloom(ctx, rng, case):
                 sAB.add("only-in-the-first-operand-later")
             ctx.count("aliasing_checks")
         case.nontrivial = len(set(A)) >= 1 and len(set(B)) >= 1
+    finally:
+        for o in objs:
+            if hasattr(o, "close"):
+                try:
+                    o.close()
+                except Exception:
+                    pass
+        sc.cleanup()
+
+
+def wl_coincident(ctx, rng, case):
+    """operands built from DIFFERENT (est_elements, rate) requests that derive the SAME bits / hashes: compatible, so their union (plain and
+    counting, both orders, in memory and on disk) must be the structure fed both streams"""
+    import probables as P
+
+    found = gen.same_geometry_pair(rng, max_bits=4000)
+    if not found:
+        return
+    n, p, n2, p2, (m, k) = found
+    keys = gen.universe(rng, rng.randint(2, 14))
+    hname, hf = gen.pick_hash(rng, keys)
+    A = [rng.choice(keys) for _ in range(rng.randint(1, 10))]
+    B = [rng.choice(keys) for _ in range(rng.randint(1, 10))]
+    counting = rng.random() < 0.4
+    disk = rng.random() < 0.3 and not counting
+    case.desc = {"kind": "coincident geometry", "a": (n, p), "b": (n2, p2), "bits": m, "hashes": k, "hash": hname, "counting": counting, "A": A, "B": B}
+    sc = bl.Scratch(ctx, case)
+    objs = []
+    try:
+        cls = P.CountingBloomFilter if counting else P.BloomFilter
+        sA = cls(n, p, **bl.kw_hash(hf))
+        sB = P.BloomFilterOnDisk(sc.path("b"), n2, p2, **bl.kw_hash(hf)) if disk else cls(n2, p2, **bl.kw_hash(hf))
+        objs.append(sB)
+        refs = {"a": cls(n, p, **bl.kw_hash(hf)), "b": cls(n2, p2, **bl.kw_hash(hf))}
+        for x in A:
+            sA.add(x)
+            refs["a"].add(x), refs["b"].add(x)
+        for x in B:
+            sB.add(x)
+            refs["a"].add(x), refs["b"].add(x)
+        ctx.check((sA.number_bits, sA.number_hashes) == (sB.number_bits, sB.number_hashes) == (m, k), "the two requests do not derive the same geometry", a=(sA.number_bits, sA.number_hashes), b=(sB.number_bits, sB.number_hashes))
+        cells = bl.cells_of if counting else bl.bits_of
+        for first, second, tag in ((sA, sB, "a.union(b)"), (sB, sA, "b.union(a)")):
+            res = first.union(second)
+            ctx.check(res is not None, f"{tag} of two filters with the same bits, hashes and strategy returned None", a=(n, p), b=(n2, p2))
+            ctx.check((res.number_bits, res.number_hashes) == (m, k), f"{tag} has another geometry than its operands", got=(res.number_bits, res.number_hashes), want=(m, k))
+            ctx.check(cells(res) == cells(refs["a"]), f"array of {tag} differs from the filter fed both streams (operands sized by different requests)")
+            for key in A + B:
+                ctx.check(res.check(key), f"{tag} does not report a key an operand reports (operands sized by different requests)", key=key)
+            ctx.count("unions_compared")
+            ctx.count("coincident_geometry_unions")
+        case.nontrivial = True
     finally:
         for o in objs:
             if hasattr(o, "close"):
@@ -279,6 +331,7 @@ PROP = Prop(
         Workload("bloom", wl_bloom, quick=900, thorough=180000),
         Workload("counting", wl_counting, quick=500, thorough=120000),
         Workload("join", wl_join, quick=700, thorough=150000),
+        Workload("coincident", wl_coincident, quick=120, thorough=20000),
     ],
     assumptions=["unsaturated states only, as the statement says (cases whose combined array is completely set are skipped and counted)"],
     required=["unions_compared", "joins_compared", "join_argument_with_zero_total_but_nonzero_cells", "aliasing_checks", "identical_content_operand_pairs", "self_unions_compared", "self_joins_compared"],
